@@ -87,6 +87,13 @@ class Prop(PropBase):
                 yield {"op": "call", "ufunc": name, "method": "__call__", "cls": ["Signal", "RadioSignal"][k % 2],
                        "arr": ["s", "n"] if (k // 2) % 3 else ["n", "s"], "out": "none", "dtype": ["i2", "f4", "i8", "f8"][k % 4],
                        "dask": False, "where": False, "nidx": nidx, "q": "m"}
+        # long records (hundreds of thousands of elements, lengths not divisible by small block counts)
+        for name, L, cls_ in (("add", 262145, "Signal"), ("multiply", 65537, "RadioSignal"), ("negative", 300007, "Signal"),
+                              ("subtract", 131075, "IntensitySignal")):
+            if name in ufs:
+                uf = getattr(self.np, name)
+                yield {"op": "call", "ufunc": name, "method": "__call__", "cls": cls_, "arr": ["s"] if uf.nin == 1 else ["s", "a"],
+                       "out": "none", "dtype": "f8", "dask": False, "where": False, "nidx": 0, "q": "m", "L": L}
         for m in ("reduce", "accumulate", "reduceat", "outer", "at"):
             for name in ("add", "multiply", "maximum", "logical_and"):
                 for cls in (CLASSES if not quick else rng.sample(CLASSES, 3)):
@@ -109,16 +116,16 @@ class Prop(PropBase):
                        "dtype": "f8" if REQ[cls] is None or REQ[cls][0] == "float64" else "c16"}
 
     # ------------------------------------------------------------------ real code
-    def _mk(self, cls, dtype, idx, dask, shape_n=2):
+    def _mk(self, cls, dtype, idx, dask, shape_n=2, L=4):
         pb, np, u = self.pb, self.np, self.u
-        shape = (4,) + sigs.sample_shape(cls, shape_n)
+        shape = (L,) + sigs.sample_shape(cls, shape_n)
         base = (np.arange(int(np.prod(shape))).reshape(shape) % 5 + 1 + idx).astype({"f8": "f8", "f4": "f4", "i8": "i8", "i2": "i2", "c16": "c16", "c8": "c8"}[dtype])
         if dtype == "i2":
             base = base * 50          # squares no longer fit 16 bits: the result type matters
         if dtype in ("c16", "c8"):
             base = base + 1j * (base.real % 3)
         data = self.da.from_array(base, chunks=(2,) + shape[1:]) if dask else base
-        return sigs.make(pb, cls, 4, (idx + 1) * u.kHz, sigs.T0S[idx % 3], nchan=shape_n, data=data,
+        return sigs.make(pb, cls, L, (idx + 1) * u.kHz, sigs.T0S[idx % 3], nchan=shape_n, data=data,
                          meta={"id": idx}, **({"pol_type": "linear"} if cls == "DualPolarizationSignal" else {}))
 
     def _other_cls(self, cls):
@@ -197,7 +204,7 @@ class Prop(PropBase):
             if a in ("s", "m"):
                 cls = case["cls"] if a == "s" else self._other_cls(case["cls"])
                 dt = case["dtype"] if a == "s" else ("f8" if REQ[cls] is None or REQ[cls][0] == "float64" else "c16")
-                z = self._mk(cls, dt, nsig, case["dask"])
+                z = self._mk(cls, dt, nsig, case["dask"], L=case.get("L", 4))
                 if a == "m" and z.shape != ops[0].shape if ops and hasattr(ops[0], "shape") else False:
                     pass
                 ops.append(z)
@@ -205,7 +212,7 @@ class Prop(PropBase):
                 sig_ids.append(nsig)
                 nsig += 1
             elif a == "a":
-                shape = (4,) + sigs.sample_shape(case["cls"], 2)
+                shape = (case.get("L", 4),) + sigs.sample_shape(case["cls"], 2)
                 ops.append(np.full(shape, 2, dtype="f8" if case["dtype"] not in ("i8", "i2") else case["dtype"]))
                 desc.append("o")
             elif a == "k":
